@@ -231,6 +231,7 @@ func subsScenario(rng *hx.Rng, fails *[][2]string) (lines []subsLine, leavesDuri
 		}
 	}
 	nSteps := 5 + rng.Intn(5)
+	judged := true
 	viewMarks := make([][]int, nConn) // per connection: len(got) before/after every step
 	for ; step < nSteps; step++ {
 		sv := svcs[rng.Intn(len(svcs))]
@@ -331,6 +332,9 @@ func subsScenario(rng *hx.Rng, fails *[][2]string) (lines []subsLine, leavesDuri
 		steps = append(steps, subsStep{Op: o, Res: r, Via: via})
 		// after the call returned: every subscription still held has seen exactly the events so far
 		for j, s := range subs {
+			if !judged {
+				break
+			}
 			c := conns[s.Conn]
 			c.mu.Lock()
 			var got, want []dEvent
@@ -364,7 +368,7 @@ func subsScenario(rng *hx.Rng, fails *[][2]string) (lines []subsLine, leavesDuri
 			if bad != "" {
 				*fails = append(*fails, [2]string{"events-exact-subscribers", bad + "; after step " + strconv.Itoa(step+1) + " of: " + subsText(steps) +
 					"; subscriber table in registration order: " + tableText + "; leaves: " + strings.Join(notes, "; ")})
-				return
+				judged = false // one report per scenario; the views still go to Coq
 			}
 		}
 	}
